@@ -163,7 +163,36 @@ def structural_get_context(repo):
                       'parent() while the definition is indented at or right of the cursor column'}]
 
 
-STRUCTURAL = [structural_get_context]
+def structural_module_name(repo):
+    """full_name of everything defined in the analysed file starts with the dotted name of that file, which is
+    derived from the search path WITHOUT the buffer's ancestor directories (those entries exist to resolve imports of
+    siblings; as roots of the dotted name they would swallow namespace folders: c18ns.tools.helpers -> helpers)"""
+    import ast
+    import os
+    from pyvc.verify import find_function
+    rel = 'jedi/api/__init__.py'
+    try:
+        t = ast.parse(open(os.path.join(repo, rel), encoding='utf-8').read())
+    except (OSError, SyntaxError) as e:
+        return [{'id': 'module-name-roots', 'kind': 'call-pre', 'ok': None, 'label': 'cannot parse %s: %s' % (rel, e)}]
+    fn = find_function(t, 'Script._get_module')
+    ok = None
+    detail = ''
+    if fn is not None:
+        calls = [n for n in ast.walk(fn) if isinstance(n, ast.Call) and ast.unparse(n.func) == 'transform_path_to_dotted']
+        if len(calls) == 1 and calls[0].args:
+            a0 = ' '.join(ast.unparse(calls[0].args[0]).split())
+            detail = a0
+            if a0 == 'self._inference_state.get_sys_path(add_parent_paths=False)':
+                ok = True
+            elif a0.startswith('self._inference_state.get_sys_path('):
+                ok = False
+    return [{'id': 'module-name-roots', 'kind': 'call-pre', 'ok': ok, 'detail': detail,
+             'label': 'Script._get_module derives the dotted name of the buffer from get_sys_path(add_parent_paths=False): '
+                      'plain folders between the project root and the file stay part of the dotted name'}]
+
+
+STRUCTURAL = [structural_get_context, structural_module_name]
 def _standin(repo, seed, tier):
     from pyvc.standin import run_standin
     return run_standin('C18', tier, seed, repo)
